@@ -219,6 +219,17 @@ func relItems(kind string, variant string) []model.RelItem {
 		return []model.RelItem{{Name: p + "1", Op: ">=", Ver: "1.2"}, {Name: p + "1", Op: "<", Ver: "2.0"}, {Name: p + "2"}}
 	case "single":
 		return []model.RelItem{{Name: p + "-only"}}
+	case "many":
+		// thousands of items: the list is longer than any line or block buffer
+		var l []model.RelItem
+		for i := 0; i < 6000; i++ {
+			it := model.RelItem{Name: fmt.Sprintf("%s-lib%05d", p, i)}
+			if i%3 == 0 {
+				it.Op, it.Ver = ">=", fmt.Sprintf("1.%d", i)
+			}
+			l = append(l, it)
+		}
+		return l
 	}
 	return nil
 }
@@ -422,6 +433,23 @@ func enumC02(env *engine.Env, yield func(any) bool) {
 		return
 	}
 	// (e) relations
+	for _, k := range model.RelKinds {
+		c := baseMeta()
+		c.Rel = map[string][]model.RelItem{k: relItems(k, "many")}
+		if !emit("rel1-many", c) {
+			return
+		}
+	}
+	{
+		c := baseMeta()
+		c.Rel = map[string][]model.RelItem{}
+		for _, k := range model.RelKinds {
+			c.Rel[k] = relItems(k, "many")
+		}
+		if !emit("rel8-many", c) {
+			return
+		}
+	}
 	for _, variant := range []string{"plain", "versioned", "twice", "single"} {
 		for i, k1 := range model.RelKinds {
 			c := baseMeta()
@@ -506,6 +534,10 @@ func enumC02(env *engine.Env, yield func(any) bool) {
 		func(c *model.MetaCfg) {
 			c.DebTriggers = map[string][]string{"interest": {"trig-a", "trig-b"}, "interest_await": {"trig-c"}, "interest_noawait": {"trig-d"}, "activate": {"trig-e"}, "activate_await": {"trig-f"}, "activate_noawait": {"trig-g"}}
 		},
+		func(c *model.MetaCfg) {
+			// one name under several directives, a name twice under one
+			c.DebTriggers = map[string][]string{"interest": {"trig-a", "trig-shared"}, "interest_noawait": {"trig-shared2"}, "activate": {"trig-shared", "trig-b"}, "activate_noawait": {"trig-shared2", "trig-shared"}}
+		},
 		func(c *model.MetaCfg) { c.Changelog = true },
 		func(c *model.MetaCfg) { c.Platform = "darwin" },
 		func(c *model.MetaCfg) { c.Platform = "freebsd"; c.FormatArch = "customarch" },
@@ -519,8 +551,8 @@ func enumC02(env *engine.Env, yield func(any) bool) {
 	}
 	if env.Thorough() {
 		// every pair of extras together
-		for i, a := range extras[:10] {
-			for _, b := range extras[i+1 : 10] {
+		for i, a := range extras[:11] {
+			for _, b := range extras[i+1 : 11] {
 				c := baseMeta()
 				a(&c)
 				b(&c)
